@@ -77,7 +77,10 @@ Inductive stmt :=
 | URemoveLabels (rows : list (N * list N))                      (* REMOVE n:l1:l2 *)
 | UDelete (detach : bool) (ids : list N)                        (* [DETACH] DELETE n, one target per row *)
 | UDeleteRel (keys : list rkey)                                 (* DELETE r *)
-| UMergeNode (rows : list (list N * list (N * oval) * list (N * oval) * list (N * oval))).
+| UMergeNode (rows : list (list N * list (N * oval) * list (N * oval) * list (N * oval)))
+| USetRelProp (rows : list (rkey * N * oval))                   (* MATCH (a)-[r]->(b) SET r.k = v, one row per parallel relationship *)
+| UMergeRel (rows : list (rkey * list (N * oval) * list (N * oval) * list (N * oval))).
+                                                                (* MATCH (a),(b) MERGE (a)-[r:t {ps}]->(b) ON CREATE SET oc ON MATCH SET om *)
                                                                 (* MERGE (n:ls {ps}) ON CREATE SET oc ON MATCH SET om *)
 
 Inductive outcome := Done (g : graph) (count : N) | Failed.
@@ -182,6 +185,45 @@ Definition merge_node_row (acc : graph * N)
                (gr g) (gnext g) (add_cat ls (gcat g)), c)
   end.
 
+(* relationship properties live in ONE map per key (src,type,dst), shared by parallel relationships *)
+Fixpoint rmap (k : rkey) (f : props -> props) (l : list (rkey * (N * props))) : list (rkey * (N * props)) :=
+  match l with
+  | [] => []
+  | (k', (m, p)) :: t => if rkey_eqb k' k then (k', (m, f p)) :: t else (k', (m, p)) :: rmap k f t
+  end.
+Fixpoint rfind_pre (k : rkey) (l : list (rkey * (N * props))) : option (N * props) :=
+  match l with [] => None | (k', v) :: t => if rkey_eqb k' k then Some v else rfind_pre k t end.
+Definition rprops (g : graph) (k : rkey) : props :=
+  match rfind_pre k (gr g) with Some (_, p) => p | None => [] end.
+
+Definition set_rel_prop_row (pre : graph) (acc : graph * N) (r : rkey * N * oval) : graph * N :=
+  let '(g, c) := acc in let '(key, k, v) := r in
+  match v with
+  | ONull => (mkGraph (gn g) (rmap key (pdel k) (gr g)) (gnext g) (gcat g),
+              if has_key k (rprops pre key) then c + 1 else c)
+  | _ => (mkGraph (gn g) (rmap key (pset k v) (gr g)) (gnext g) (gcat g), c + 1)
+  end.
+
+(* pattern properties of a created relationship are stored as given (nulls included) *)
+Definition raw_set (p : props) (ps : list (N * oval)) : props :=
+  fold_left (fun p kv => (fst kv, snd kv) :: pdel (fst kv) p) ps p.
+Fixpoint rel_merge_create (k : rkey) (ps oc : list (N * oval)) (l : list (rkey * (N * props))) : list (rkey * (N * props)) :=
+  match l with
+  | [] => [(k, (1, set_all (raw_set [] ps) oc))]
+  | (k', (m, p)) :: t =>
+      if rkey_eqb k' k then (k', (m + 1, set_all (raw_set p ps) oc)) :: t else (k', (m, p)) :: rel_merge_create k ps oc t
+  end.
+Definition merge_rel_row (acc : graph * N)
+           (r : rkey * list (N * oval) * list (N * oval) * list (N * oval)) : graph * N :=
+  let '(g, c) := acc in let '(key, ps, oc, om) := r in
+  let matched :=
+    match rfind_pre key (gr g) with
+    | Some (_, p) => forallb (fun kv => match pget (fst kv) p with Some w => pv_eq w (snd kv) | None => false end) ps
+    | None => false
+    end in
+  if matched then (mkGraph (gn g) (rmap key (fun p => set_all p om) (gr g)) (gnext g) (gcat g), c)
+  else (mkGraph (gn g) (rel_merge_create key ps oc (gr g)) (gnext g) (gcat g), c + 1).
+
 Definition done (p : graph * N) : outcome := Done (fst p) (snd p).
 
 Definition exec (g : graph) (s : stmt) : outcome :=
@@ -196,6 +238,8 @@ Definition exec (g : graph) (s : stmt) : outcome :=
   | UDelete detach ids => delete_nodes g detach ids
   | UDeleteRel keys => delete_rels g keys
   | UMergeNode rows => done (fold_left merge_node_row rows (g, 0))
+  | USetRelProp rows => done (fold_left (set_rel_prop_row g) rows (g, 0))
+  | UMergeRel rows => done (fold_left merge_rel_row rows (g, 0))
   end.
 
 (* a failed statement leaves the graph unchanged (the transaction is dropped) *)
